@@ -116,8 +116,14 @@ def build_evaluator(prog: Program, expected_input: str, groups: Optional[Obj], s
     member = Obj(it_cls, {"value": member_cls, "_value_": member_cls, "name": expected_input, "_name_": expected_input})
     kw = {n: Sym("CFG_" + n) for n in CFG}
     kw["decision_threshold"] = Sym("CFG_decision_threshold")
+    kw["instance_metrics"] = [Sym("CFG_instance_metrics[0]"), Sym("CFG_instance_metrics[1]")]
+    kw["global_metrics"] = [Sym("CFG_global_metrics[0]")]
     kw.update({"expected_input": member, "segmentation_class_groups": groups, "save_group_times": save_group_times, "log_times": Sym("CFG_log_times"), "verbose": Sym("CFG_verbose")})
-    return construct(prog, cls, kw)
+    cfg = dict(kw)
+    ev = construct(prog, cls, kw)
+    ev.attrs["_tag_cfg"] = cfg
+    ev.attrs["_tag_cfg_lens"] = {k: len(v) for k, v in cfg.items() if isinstance(v, list)}
+    return ev
 
 
 def run_evaluate(prog: Program, ev: Obj, labels=None, call_kwargs=None):
